@@ -73,11 +73,17 @@ static void body_kernels(Tape &t, Ctx &c) {
 		len = pick_len(t, 0, 1);
 		sp = flush_place(t, 1);
 		guard::Buf b = kern::alloc(len, sp, "region");
+		// the access pattern depends on the data: all zero (full scan), all 0xFF / random non-zero (early exit), zero with a saturated final chunk
+		static const size_t TAIL[] = {0, 0, 0, 16, 32, 64, 128};
+		int dk = (int) t.range(0, 6);
 		memset(b.p, 0, len);
+		if (dk == 1) memset(b.p, 0xFF, len);
+		else if (dk == 2) kern::fill(b.p, len, t.bits64(), 0);
+		else if (dk >= 3) { size_t tl = std::min(TAIL[dk], len); memset(b.p + len - tl, 0xFF, tl); }
 		guard::set_readonly(b);
 		f = guard::call([&] { fn(b.p, len); });
-		PBT_CHECK(!f.faulted, "memory:" + name.substr(0, name.find('@')), "%s(len=%zu, %s): %s", name.c_str(), len, sp.desc().c_str(), f.describe().c_str());
-		c.fpmix(vi); c.fpmix(len); c.fpmix(sp.mode);
+		PBT_CHECK(!f.faulted, "memory:" + name.substr(0, name.find('@')), "%s(len=%zu, %s, data kind %d): %s", name.c_str(), len, sp.desc().c_str(), dk, f.describe().c_str());
+		c.fpmix(vi); c.fpmix(len); c.fpmix(sp.mode); c.fpmix(dk);
 	} else if (fam == 2 || fam == 3) { // EC dot product / mad kernels and encode / update entry points
 		bool mad = fam == 3;
 		int nk = mad ? ecv::NMAD : ecv::NDOT;
@@ -96,7 +102,7 @@ static void body_kernels(Tape &t, Ctx &c) {
 		std::vector<uint8_t> coef((size_t) k * rows);
 		uint64_t seed = t.bits64();
 		for (size_t i = 0; i < coef.size(); i++) coef[i] = (uint8_t) (mix64(seed + i) >> 7);
-		guard::Buf tb = guard::alloc((size_t) 32 * k * rows, guard::END, "g_tbls");
+		guard::Buf tb = guard::alloc((size_t) 32 * k * rows, guard::END, "g_tbls", 64, (seed >> 40) & 3 ? (size_t) ((seed >> 44) % 64) : 0); // no alignment is documented for the tables
 		if (disp) ec_init_tables(k, rows, coef.data(), tb.p); else ecv::build_tables(gfni, k, rows, coef.data(), tb.p);
 		guard::set_readonly(tb);
 		std::vector<guard::Buf> src, dst;
